@@ -112,7 +112,7 @@ Definition dag_append_motif (w : pyst) (p c : nat) (m : space) : option pyst :=
 
 (* self.dag.edges[p, c] : KeyError without the edge *)
 Definition dag_edge (w : pyst) (p c : nat) : option unit :=
-  if has_edge (p_sd w) p c then Some tt else None.
+  if has_edge (p_sd w) p c then Some Datatypes.tt else None.
 
 (* len(space) = number of fixed variables;  a | b on dicts *)
 Definition count_fixed (X : space) : nat :=
